@@ -1002,7 +1002,7 @@ const c17Shard = 25
 func runC17(cfg *vh.Config) error {
 	log.SetOutput(io.Discard) // the compiler logs every walker error
 	res := vh.NewResult("C17", cfg.Seed)
-	res.Rule = "entity declarations: name casings (fixed list incl. trailing capitals/acronyms/digits/underscores + generated identifiers), 1-4 keys (key-typed id62/uuid/plain with primary/tenant/foreign, or ANY other field type) x shard flag x required; keys/data/event/request/response/summary/object fields over every field type of the schema language: 9 scalars, timestamp/date/decimal/any, bytes, keys, object/oneof/enum references, arrays and maps of all of these (3-4% optional arrays/maps: plain repeated fields since fix d536c9b); 1-4 statuses (+ UNSPECIFIED-first and prefixed-name edge cases), 0-3 events, 0-2 command services (default/named, base paths with leading/trailing/double slashes, options blocks, 0-2 methods with path parameters), boolean attributes also spelled out as false, 0-2 summaries, objects/oneofs/enums declared in the entity block, optional query settings; names the expansion itself adds are NOT avoided (keys page/query, summary field upsert, event Type, entity Page/Events: known findings, the compiler rejects them; keys metadata/data/status/event: accepted, every clause holds); 20% of the files declare two entities; zero-keys (outside the quantifier, accepted); list-request settings (outside the quantifier, conversion error); malformed stream: 21 fault classes round-robin (walker errors, conversion errors, parser validation, 15 duplicate-symbol classes, a quarter of them in the second entity of a file), acceptance compared both ways and the error class compared; plus the strcase stream; non-trivial = distinct declaration text"
+	res.Rule = "entity declarations: name casings (fixed list incl. trailing capitals/acronyms/digits/underscores + generated identifiers), 1-4 keys (key-typed id62/uuid/plain with primary/tenant/foreign, or ANY other field type) x shard flag x required; keys/data/event/request/response/summary/object fields over every field type of the schema language: 9 scalars, timestamp/date/decimal/any, bytes, keys, object/oneof/enum references, arrays and maps of all of these (3-4% optional arrays/maps: plain repeated fields since fix d536c9b); 1-4 statuses (+ UNSPECIFIED-first and prefixed-name edge cases), 0-3 events, 0-2 command services (default/named, base paths with leading/trailing/double slashes, options blocks, 0-2 methods with path parameters), boolean attributes also spelled out as false, 0-2 summaries, objects/oneofs/enums declared in the entity block, optional query settings; names the expansion itself adds are NOT avoided (keys page/query, summary field upsert, event Type, entity Page/Events: reserved, the compiler must reject them by name at their source position - class 9, the diagnostic's line is checked against the source; keys metadata/data/status/event: accepted, every clause holds); event / command / method / block schema names also with underscores and lower-case initials where the compiler accepts them; 20% of the files declare two entities; zero-keys (outside the quantifier, accepted); list-request settings (outside the quantifier, conversion error); malformed stream: the fault classes of negClasses round-robin (walker errors, conversion errors, parser validation, duplicate-symbol classes - a quarter of them in the second entity of a file -, reserved names alone / next to a second fault / in the other declaration of a two-entity file, enum options whose protobuf names collide), acceptance compared both ways and the error class compared; plus the strcase stream; non-trivial = distinct declaration text"
 	cf := &vh.CasesFile{
 		Header: "From Coq Require Import String List NArith.\nFrom J5V.lib Require Import Outcome.\nFrom J5V.model Require Import Entity EntityCorr.\nFrom J5V.proofs Require Import EntitySpecCorr.",
 		Type:   "c17case",
@@ -1205,7 +1205,7 @@ func runC17(cfg *vh.Config) error {
 						res.Count("reserved_name_rejected_at_its_position")
 					}
 				case usesReserved && errc == 6:
-					sig = "C17 reserved name (key page|query, summary field upsert, event Type, entity Page|Events) is not diagnosed: link error symbol already defined in a generated file"
+					sig = "C17 reserved name (key page|query, summary field upsert, event Type, entity Page|Events) is not diagnosed as reserved: it fails as a name conflict with the field the expansion adds (duplicate-name error / link error on the generated file)"
 					clause = "each entity declaration yields ... (a name the expansion reserves must be rejected by name at its source position, not fail at link time in a generated file)"
 				case strings.Contains(msg, "not found") && endsCap(d.Ents[0].Name):
 					sig = "C17 entity name ending in a capital fails to compile: type <Name>State/Event/EventType not found (entity.go naming)"
